@@ -226,6 +226,7 @@ class Conn:
         self.closed = False
         self.raw_in: t.List[bytes] = []
         self.raw_out: t.List[bytes] = []
+        self.ev_headers: t.List[tuple] = []
 
     def ev(self, **k) -> dict:
         self.events.append(k)
@@ -240,6 +241,7 @@ class Conn:
             self.ev(event="undecodable", error=str(e), raw=bytes(raw))
             raise CloseConnection()
         pt = m["ptype"]
+        self.ev_headers.append((pt, m["flags"], bytes(m["drep"]), m["call_id"], bytes(raw[:2])))
         if pt == rpc.BIND:
             out = self.on_bind(m, rpc.BIND_ACK)
         elif pt == rpc.ALTER_CONTEXT:
